@@ -232,8 +232,8 @@ func (c *Ctx) ruleServeRouting(r2, r3 *RuleRep) {
 			return ok && c.Resolve(b) == ssa.Value(m.F.Params[0])
 		}
 		if ld, ok := rv.(*ssa.UnOp); ok && ld.Op == token.MUL {
-			if fa, ok := ld.X.(*ssa.FieldAddr); ok && typeName(fa.X.Type()) == "signaller" {
-				if _, isChan := ld.Type().Underlying().(*types.Chan); isChan && ownSig(fa.X) && arm.Instr[ld] && ld.Type().Underlying().(*types.Chan).Elem().String() == arm.Pkt.Type().String() {
+			if fa, ok := ld.X.(*ssa.FieldAddr); ok && inSignaller(fa) {
+				if _, isChan := ld.Type().Underlying().(*types.Chan); isChan && func() bool { sb, _ := signallerBase(fa); return sb != nil && ownSig(sb) }() && arm.Instr[ld] && ld.Type().Underlying().(*types.Chan).Elem().String() == arm.Pkt.Type().String() {
 					r2.OK(key, ld.Pos(), "0x%02X -> %s.Parse -> this client's signaller channel for %s (read per packet) -> non-blocking send of the parsed packet", arm.K, want, want)
 					continue
 				}
@@ -348,11 +348,12 @@ func (c *Ctx) ruleInlineLookup(r2, r3 *RuleRep, m *serveModel, arm *serveArm, wa
 			return nil, nil
 		}
 		fa, ok := u.X.(*ssa.FieldAddr)
-		if !ok || typeName(fa.X.Type()) != "signaller" {
+		if !ok || !inSignaller(fa) {
 			return nil, nil
 		}
 		_, fld := fieldOf(fa)
-		return fld, fa.X
+		sb, _ := signallerBase(fa)
+		return fld, sb
 	}
 	fld, base := tableOf(lk.X)
 	if fld == nil {
